@@ -14,7 +14,7 @@ use crate::proto::{Ctx, attrs};
 pub fn meta() -> Meta {
     Meta {
         level: "exploration",
-        rule: "exhaustive: n=3, all 6 variable orders: empty/base/singleton(v); subset0/subset1/change for all 256 families x 3 variables; union/intsec/diff for all 65536 pairs; make_node(var, hi, lo) for every variable and every (hi, lo) pair of families that mention only variables below var's level; Boolean view (eval over all manager variables = membership); then add_vars(1) (twice): every old handle keeps its family, its Boolean view is false whenever a new variable is true, and operations between old and new handles still agree with the model on n+1 variables. thorough: n=4 all 65536 families for the unary operations under 3 orders. Non-trivial: operand families are neither empty nor {∅} and distinct.",
+        rule: "exhaustive: n=3, all 6 variable orders: empty/base/singleton(v); subset0/subset1/change for all 256 families x 3 variables; union/intsec/diff for all 65536 pairs; make_node(var, hi, lo) for every variable and every (hi, lo) pair of families that mention only variables below var's level; Boolean view (eval over all manager variables = membership); every ordered pair of distinct orders: families built under the first order (all 256, and a sparse live set), set_var_order to the second, then family / subset0 / subset1 / change / union / intsec / diff / singleton; then add_vars(1) (twice): every old handle keeps its family, its Boolean view is false whenever a new variable is true, and operations between old and new handles still agree with the model on n+1 variables. thorough: n=4 all 65536 families for the unary operations under 3 orders. Non-trivial: operand families are neither empty nor {∅} and distinct.",
         assumptions: vec![
             "operand families are built through reduce/then_insert; results are read by the harness's own family interpreter".into(),
             "random families over 5..8 variables not enumerated".into(),
@@ -29,6 +29,15 @@ pub fn shards(tier: &str) -> Vec<String> {
     for o in model::perms(3) {
         for part in ["unary", "union", "intsec", "diff", "mknode", "addvars"] {
             v.push(format!("{}:{part}", model::order_str(&o)));
+        }
+    }
+    // set operations on families that lived through a reordering (a sparse live set: level swaps then really
+    // free and create nodes), every ordered pair of distinct orders
+    for o1 in model::perms(3) {
+        for o2 in model::perms(3) {
+            if o1 != o2 {
+                v.push(format!("{}:re{}", model::order_str(&o1), model::order_str(&o2)));
+            }
         }
     }
     if tier == "thorough" {
@@ -79,6 +88,42 @@ pub fn run(ctx: &mut Ctx) {
     let tc = ThreadCfg { threads: 1, split: None };
     if let Some(p) = part.strip_prefix("n4p") {
         return run_n4(ctx, &order, p.parse().unwrap());
+    }
+    if let Some(o2) = part.strip_prefix("re") {
+        let o2 = model::parse_order(o2);
+        let n = 3u32;
+        let label = format!("reorder {}>{}", model::order_str(&order), model::order_str(&o2));
+        ctx.group(&label, |ctx| {
+            // two live sets: all 256 families, and a sparse one
+            for sparse in [false, true] {
+                let tabs: Vec<Tab> = if sparse { model::subset3().into_iter().step_by(3).chain([0x16u64, 0x68, 0x81, 0x42]).collect() } else { (0..256).collect() };
+                let (mref, fns) = functions_of::<Zbdd>(n, &order, 1024, tc, &tabs);
+                Zbdd::set_order(&mref, &o2);
+                for (f, &t) in fns.iter().zip(&tabs) {
+                    check(ctx, n, &o2, "family_after_reorder", &[t], t, Ok(f.clone()), nt(t));
+                    for v in 0..n {
+                        check(ctx, n, &o2, "subset0", &[t, v as Tab], model::fam_subset0(t, v, n), f.subset0(v), nt(t));
+                        check(ctx, n, &o2, "subset1", &[t, v as Tab], model::fam_subset1(t, v, n), f.subset1(v), nt(t));
+                        check(ctx, n, &o2, "change", &[t, v as Tab], model::fam_change(t, v, n), f.change(v), nt(t));
+                    }
+                }
+                let step = if sparse { 1 } else { 5 };
+                for (f, &a) in fns.iter().zip(&tabs).step_by(step) {
+                    for (g, &b) in fns.iter().zip(&tabs).step_by(step) {
+                        check(ctx, n, &o2, "union", &[a, b], a | b, f.union(g), nt(a) && nt(b) && a != b);
+                        check(ctx, n, &o2, "intsec", &[a, b], a & b, f.intsec(g), nt(a) && nt(b) && a != b);
+                        check(ctx, n, &o2, "diff", &[a, b], a & !b & 0xff, f.diff(g), nt(a) && nt(b) && a != b);
+                    }
+                }
+                mref.with_manager_shared(|m| {
+                    for v in 0..n {
+                        check(ctx, n, &o2, "singleton", &[v as Tab], 1 << (1 << v), ZBDDFunction::singleton(m, v), true);
+                    }
+                });
+            }
+            ctx.sample(|| case(n, &o2, "union", &[0x16, 0x68], 0x7e, &label));
+        });
+        return;
     }
     let n = 3u32;
     match part {
